@@ -238,7 +238,66 @@ def run_cli_routes(ctx, cli, root, stats):
                                           f"{op} through a hand-written {route} file with {' '.join(flags)}: outcome {cls}, effects {eff}",
                                           {"flags": flags, "route": route, "asm": text, "outcome": cls, "effects": eff, "output": out[-600:]})
                     shutil.rmtree(d, ignore_errors=True)
+    # bytecode produced by the real compiler from a source that uses sys.exec* (std.sys registers without a capability,
+    # so such a program compiles), run with and without the exec capability
+    for m in (0, 4):
+        x = bool(m & 4)
+        for spname, sp in SPELL.items():
+            flags = sp(False, False, x)
+            for fn, call in (("exec", 'sys.exec("touch %s/sentinel")'), ("exec_args_output", 'sys.exec_args_output("touch", "%s/sentinel")')):
+                n += 1
+                d = os.path.join(root, f"cli{n}")
+                shutil.rmtree(d, ignore_errors=True)
+                os.makedirs(d)
+                src = os.path.join(d, "prog.aelys")
+                open(src, "w").write("needs std.sys\n" + (call % d) + "\n")
+                rc, out = vlib.sh([cli, "compile", src, "-o", os.path.join(d, "prog.avbc")], timeout=60, cwd=d)
+                if rc != 0:
+                    ctx.broken.append("cli: cannot compile the sys.exec probe: " + out[-300:])
+                    return
+                before = snapshot(d)
+                rc, out = vlib.sh([cli, "run"] + flags + [os.path.join(d, "prog.avbc")], timeout=60, cwd=d)
+                eff = sdiff(before, snapshot(d))
+                cls = stderr_class(rc, out)
+                stats["cli_runs"] += 1
+                stats["distinct"].add(("cli", "avbc-from-source", fn, m, spname))
+                if x:
+                    if not eff:
+                        ctx.broken.append(f"sentinel insensitive: sys.{fn} in compiled bytecode with {flags} allowed but no effect ({cls})")
+                    else:
+                        stats["allowed_effects"] += 1
+                else:
+                    stats["denied_attempts"] += 1
+                    if eff or cls not in ("capability-denied", "unknown-name"):
+                        ctx.violation(f"std-native-exercised:avbc-from-source:sys::{fn}:{cls}",
+                                      f"sys.{fn} in bytecode compiled from source, run with {' '.join(flags)}: outcome {cls}, effects {eff}",
+                                      {"flags": flags, "route": "avbc-from-source", "source": open(src).read(), "outcome": cls, "effects": eff})
+                shutil.rmtree(d, ignore_errors=True)
     lst.close()
+
+
+def registration_report(ctx):
+    try:
+        ext = open(os.path.join(vlib.COQ, "Extracted", "StdModules.v")).read()
+        mod = vlib.strip_coq_comments(open(os.path.join(vlib.COQ, "Model", "Caps.v")).read())
+    except OSError:
+        return
+    from collections import Counter
+    blk = ext[ext.index("Definition registration_sites"):]
+    blk = blk[:blk.index("].") + 2]
+    found = Counter((f, p) for f, g, p in re.findall(r'\("([^"]+)", "([^"]+)", "([^"]+)"\)', blk))
+    known = {(f, p): int(k) for f, p, k in re.findall(r'\(\("([^"]+)", "([^"]+)"\), (\d+)\)', mod)}
+    ctx.cov["native_registration_sites"] = {"found_by_translator": sum(found.values()), "accounted_for": sum(min(v, known.get(k, 0)) for k, v in found.items())}
+    new = sorted(k for k, v in found.items() if v > known.get(k, 0))
+    if new:
+        ctx.broken.append("a place that registers natives is not accounted for by Model/Caps.v::known_registration: " +
+                          "; ".join(f"{f} ({p}: {found[(f, p)]} calls, {known.get((f, p), 0)} known)" for f, p in new[:5]))
+    eb = ext[ext.index("Definition native_effects"):]
+    eb = eb[:eb.index("].\n") + 2]
+    prot = re.findall(r'\(\("([^"]*)", "([^"]+)"\), \[([^\]]*)\]\)', eb)
+    ctx.cov["natives_with_effects"] = {"fs": sum('"fs"' in e for _, _, e in prot), "net": sum('"net"' in e for _, _, e in prot),
+                                       "process": sum('"process"' in e for _, _, e in prot), "env (not protected)": sum('"env"' in e for _, _, e in prot),
+                                       "exit (not protected)": sum('"exit"' in e for _, _, e in prot)}
 
 
 def native_cases(lib_fnv):
@@ -271,7 +330,11 @@ def native_cases(lib_fnv):
     add("caps-allow-then-deny-other-order", ["--deny-caps=danger", "--allow-caps=danger"], "source", pol(["danger"]), "denied-capability")
     add("caps-allowed", ["--allow-caps=danger,fs"], "source", pol(["danger"]), None)
     add("caps-denied-but-trusted", ["--deny-caps=danger", "--ae-trusted=true"], "source", pol(["danger"]), None)
+    add("caps-second-of-two-denied", ["--deny-caps=danger"], "source", pol(["safe", "danger"]), "denied-capability")
+    add("caps-two-allowed-one-missing", ["--allow-caps=safe"], "source", pol(["safe", "danger"]), "denied-capability")
     add("checksum-ok", [], "source", pol([], ok_ck), None)
+    add("checksum-prefix-only", [], "source", pol([], ok_ck[:6]), "different-checksum", ck_ok=False)
+    add("checksum-uppercase", [], "source", pol([], ok_ck.upper() if ok_ck.upper() != ok_ck else "0" + ok_ck[1:]), "different-checksum", ck_ok=False)
     add("checksum-wrong", [], "source", pol([], "0000000000000000"), "different-checksum", ck_ok=False)
     add("checksum-wrong-and-caps-ok", ["--allow-caps=danger"], "source", pol(["danger"], "00000000deadbeef"), "different-checksum", ck_ok=False)
     add("version-ok", [], "source", pol([], None, (0, 1, 0)), None)
@@ -387,6 +450,7 @@ def run(ctx):
         "deny_then_allow_order_dependent (recorded, not a violation): for the std bits the last of --deny-caps/--allow-caps wins",
     ]
     proved = ctx.prove("C11", extracted=["StdModules"])
+    registration_report(ctx)
     if ctx.tier == "thorough" and proved:
         ctx.coqchk("C11")
     ok, out = vlib.coq_make(["Base/CaseCheck.vo", "Model/Caps.vo"], timeout=900)
@@ -468,12 +532,16 @@ def run(ctx):
                 ctx.violation("hx_caps-crash:sentinel", "sentinel harness crashed", {"output_tail": out[-2000:]})
                 return
             na = 0
+            dist = ctx.cov.setdefault("sentinel_distribution", {"route": {}, "module": {}, "outcome_when_denied": {}, "outcome_when_allowed": {}, "spelling": {}})
             for line in out.splitlines():
                 f = line.split("\t")
                 if f[0] == "A" and len(f) >= 10:
                     na += 1
                     spname, flags, form, module, func, allowed, cls, eff, kind = f[1], f[2], f[3], f[4], f[5], f[6] == "1", f[7], f[8], f[9]
                     stats["distinct"].add(("api", form, module, func, flags))
+                    for k, v in (("route", form), ("module", module), ("spelling", spname),
+                                 ("outcome_when_allowed" if allowed else "outcome_when_denied", cls)):
+                        dist[k][v] = dist[k].get(v, 0) + 1
                     if not allowed:
                         stats["denied_attempts"] += 1
                         if eff != "-" or cls not in DENIED_OK:
@@ -488,7 +556,8 @@ def run(ctx):
                             stats["allowed_effects"] += 1
                 elif f[0] == "L":
                     module, func, cls, eff = f[1], f[2], f[3], f[4]
-                    if cls.startswith("ok") and (eff != "-" or module == "net"):
+                    stats["revoked_attempts"] = stats.get("revoked_attempts", 0) + 1
+                    if cls not in DENIED_OK or eff != "-":
                         ctx.violation(f"revoked-capability-still-exercised:{module}",
                                       f"std.{module} registered under a permitting configuration, then VM::set_capabilities(none): {module}.{func} still succeeds ({cls}, effects {eff})",
                                       {"module": module, "native": func, "outcome": cls, "effects": eff})
@@ -527,12 +596,12 @@ def run(ctx):
         st.pop("distinct")
         ctx.cov["sentinel_oracle"] = st
         ctx.cov["rule"] = (
-            "sentinel: all 8 subsets of {fs,net,exec} x 5-7 flag spellings (rotated) x 9 routes (needs module / alias / selected symbol / wildcard / "
-            "no needs / REPL history / REPL history with alias after another import / user module that re-exports / file) x 18 gated natives "
+            "sentinel: all 8 subsets of {fs,net,exec} x 5-7 flag spellings (rotated) x 11 routes (needs module / alias / selected symbol / wildcard / "
+            "no needs / REPL history / REPL history with alias after another import / user module that re-exports / file / native passed as a callback / native stored in a global and called later) x 18 gated natives "
             "(11 fs, 3 net, 4 exec) against a fresh scratch directory with a victim file and directory, a loopback listener and `touch sentinel`; "
             "denied => outcome must be CapabilityDenied or an unknown-name error and the directory snapshot, the listener and the sentinel untouched; "
             "allowed => the effect must be seen (sentinel sensitivity). cli: hand-written .aasm and assembled .avbc naming fs::write_text / "
-            "net::connect / sys::exec for 8 subsets x 3 spellings. native: 22 manifest/flag/route cases with a probe cdylib whose constructor and "
+            "net::connect / sys::exec for 8 subsets x 3 spellings. native: 26 manifest/flag/route cases with a probe cdylib whose constructor and "
             "export each drop a flag file. parse: all subsets x spellings + seeded flag lists incl. malformed; natives: registry after fixed + "
             "seeded request sequences per subset x spelling. distinct = see distinct_breakdown")
         ctx.cov["input_distribution"] = {"parse": "0-5 flags from 9 templates, ~35% malformed pieces", "natives": "1-5 requests, 25% name lists"}
